@@ -561,7 +561,8 @@ class Mitochondria:
                         kwargs[kw.arg] = self._compute_node(kw.value)
                     if callable(func):
                         return func(*args, **kwargs)
-                    return func  # Constants like pi, e
+                    # Constants like pi, e are values, not functions
+                    raise TypeError(f"'{func_name}' is not callable")
                 raise ValueError(f"Unknown function: {func_name}")
             raise ValueError("Complex function calls not supported")
 
